@@ -145,6 +145,7 @@ type State struct {
 	Mutex   map[int]bool // ghost held bits by object id
 	Log     []string
 	Spec    bool // speculative (if-conversion) execution: anything needing the solver aborts
+	Acc         map[accKey][]accRec // shared-access log (lockset.go); copy-on-write
 	Thread      int // current logical thread (vThread), 0 = none
 	ThreadHeap0 int // heap size when the current thread started (younger objects are its own allocations)
 	SelN    int         // number of select statements executed on this path
@@ -163,7 +164,7 @@ func (st *State) clone() *State {
 		ClockN:  st.ClockN,
 		Log:     st.Log[:len(st.Log):len(st.Log)],
 		SelN:    st.SelN,
-		Thread:  st.Thread, ThreadHeap0: st.ThreadHeap0,
+		Thread:  st.Thread, ThreadHeap0: st.ThreadHeap0, Acc: st.Acc,
 	}
 	if len(st.WG) > 0 {
 		n.WG = make(map[int]int, len(st.WG))
